@@ -10,7 +10,8 @@ CJK = "日本語中文한국어漢字假名"
 EMOJI = "😀🏠🔥💧🌡🚿⚡🛁"
 DECOMPOSED = "e\u0301o\u0308a\u030aA\u030an\u0303\u212b\ufb2a\u05e9\u05b8\u05bc\u05d1\u05b0u\u0308 "   # combining marks, compatibility forms
 BIDI = "אבגדה\u200e\u200f\u061c\u202a\u202b\u202c\u2066\u2067\u2069 שלום"      # right-to-left letters with the invisible direction marks editors add
-POOLS = {"bidi": BIDI, "decomposed": DECOMPOSED, "ascii": ASCII, "hebrew": HEBREW + " ", "accented": ACCENTED + "abc ", "cjk": CJK, "emoji": EMOJI + "ab"}
+MARKUP = "100% {on} %s %d %(x)s {0} $x \\n \\x00 a|b;c:d,e \"q\" 'q' <b>&amp;#@!?*()[]=+~`^/ \t"      # what format strings, templates, shells, markup and csv give a meaning to
+POOLS = {"markup": MARKUP, "bidi": BIDI, "decomposed": DECOMPOSED, "ascii": ASCII, "hebrew": HEBREW + " ", "accented": ACCENTED + "abc ", "cjk": CJK, "emoji": EMOJI + "ab"}
 
 
 def name_of(r, nchars: int, pool: str = None) -> str:
